@@ -74,12 +74,14 @@ def register(reg):
                                                     Or(is_none(ctx.get(ctx.self, "_output_info")),
                                                        ctx.get(ctx.self, "_out_infos_exchanged") .e < ctx.get(ctx.self, "_connected_inputs").keys.n))},
         note="Val(F, entry): in-RAM payload itself, spilled: the file content (units: see C10.2)",
+        tags=["unit-labels-transparent"],   # the file holds a bare magnitude; that it is reloaded with the units it was stored with is
+                                            # decided by the bounded stand-in seq_adapter.py (finding F10d), not by this unit
     ))
 
     reg.add(Contract(
         "finam.adapters.time.TimeCachingAdapter._unpack", self_cls="TimeCachingAdapter", props=["C10.2", "C11.2"], params={"where": Entry}, result=Pay,
         requires=lambda ctx: And(unpack_pre(ctx), Implies(entry_is_str(ctx.where), Not(is_none(ctx.get(ctx.self, "_input_info"))))),
-        pure=True, modifies=lambda ctx: [],
+        pure=True, modifies=lambda ctx: [], tags=["unit-labels-transparent"],
         ensures=lambda ctx, r: And(Not(entry_is_str(r)), entry_pay_e(r) == val_in(ctx, ctx.where)),
     ))
 
